@@ -114,7 +114,7 @@ def report(ck, tb, name, data, key, what, m, E, s):
     """confirm on the real hextb: sweep +verilator+seed values and compare with hexsim"""
     if 'r' not in _native:
         confirmed, detail = False, {}
-        hextb = os.path.join(build.REPO, '_build', 'hextb')
+        hextb = build.tool_hextb()      # built from the working tree
         try:
             img = bytes(image_bytes("val exit = 0; proc main() is exit(7)"))
             d = tempfile.mkdtemp(dir=os.path.join(build.VERIF, 'build')); open(os.path.join(d, 'a.out'), 'wb').write(img)
@@ -133,7 +133,7 @@ def report(ck, tb, name, data, key, what, m, E, s):
         _native['r'] = (confirmed, detail)
     confirmed, detail = _native['r']
     # the engine's witness is a concrete power-on state; a seed sweep that does not hit one within 400 seeds does not refute it
-    ck.violation(key, f"{what} [image {name}]" + (f" (hextb outcomes differ across seeds: {list(detail.get('distinct_outcomes', {}).items())[:2]})" if confirmed else " (seed sweep of the installed hextb found no differing run; witness is the planted state)"),
+    ck.violation(key, f"{what} [image {name}]" + (f" (hextb outcomes differ across seeds: {list(detail.get('distinct_outcomes', {}).items())[:2]})" if confirmed else " (a sweep of 400 +verilator+seed values of the hextb built from the working tree found no differing run; the witness is the planted power-on state)"),
                  ck.replay_file(key, {'image': name, 'native': detail}), True)
 
 def main():
